@@ -28,6 +28,8 @@ pub struct Case22 {
 }
 
 pub const SIG_MSD_PUSH: &str = "multiset_delta:push-side:rejected-by-rustc-while-pull-side-compiles";
+pub const SIG_SC_CROSS_SINGLETON: &str = "cross_singleton:short-circuit:upstream-lazy-state-skipped-when-single-empty";
+pub const SIG_SC_CHAIN_FIRST_N: &str = "chain_first_n:short-circuit:upstream-lazy-state-skipped-beyond-n";
 pub const SIG_RNR_PUSH: &str = "reduce_no_replay:push-side:single-new-item-in-a-later-tick-not-emitted";
 
 struct Member {
@@ -323,9 +325,63 @@ fn probe_groups() -> Vec<(&'static str, &'static str, Case22)> {
         sources: vec![Ty::I],
         stmt_order: None,
     };
+    // short-circuit probes: `unique::<'static>()` feeding a short-circuiting consumer directly
+    // (same pull chain) vs. through a handoff()
+    let two_src = |mid: Vec<Node>, consumer: Op, via_handoff: bool| -> Prog {
+        // nodes: src0, src1, unique(src0), [handoff], consumer(unique|handoff, src1), for_each
+        let mut nodes = vec![
+            Node { op: Op::SrcStream { src: 0, ty: Ty::I }, ins: vec![] },
+            Node { op: Op::SrcStream { src: 1, ty: Ty::I }, ins: vec![] },
+            Node { op: Op::Unique { pers: vec![Pers::Static] }, ins: vec![e(0, 0)] },
+        ];
+        nodes.extend(mid);
+        let mut last = 2;
+        if via_handoff {
+            nodes.push(Node { op: Op::Handoff, ins: vec![e(2, 0)] });
+            last = nodes.len() - 1;
+        }
+        nodes.push(Node { op: consumer, ins: vec![e(last, 0), e(1, 0)] });
+        let c = nodes.len() - 1;
+        nodes.push(Node { op: Op::ForEach { sink: 0 }, ins: vec![e(c, 0)] });
+        Prog { nodes, sources: vec![Ty::I, Ty::I], stmt_order: None }
+    };
+    let ticks2 = |items: Vec<(Vec<i64>, Vec<i64>)>| Script {
+        steps: items
+            .into_iter()
+            .map(|(a, b)| Step {
+                send: vec![a.into_iter().map(Val::I).collect(), b.into_iter().map(Val::I).collect()],
+                run: Run::Tick,
+            })
+            .collect(),
+    };
+    let hdesc = vec![vec![], vec!["handoff() inserted between unique::<'static>() and the consumer".to_string()]];
     let desc = vec![vec![], vec!["tee() with a null() branch inserted before the operator".to_string()]];
     let rnr = Op::Reduce { pers: vec![Pers::Tick], f: RedFn::Sum, replay: false };
     vec![
+        (
+            SIG_SC_CROSS_SINGLETON,
+            "cross_singleton does not pull its `input` when `single` is empty (documented short circuit); a lazily evaluated operator with cross-tick state upstream in the same pull chain (here unique::<'static>()) then never sees the tick's items, so the program's later outputs depend on whether a handoff separates the two (with handoff(): 1 is remembered in tick 0 and filtered in tick 1; without: (1, 9) is emitted in tick 1) - same class as hydro issue #2334",
+            Case22 {
+                programs: vec![
+                    two_src(vec![], Op::CrossSingleton { pers: vec![] }, false),
+                    two_src(vec![], Op::CrossSingleton { pers: vec![] }, true),
+                ],
+                descs: hdesc.clone(),
+                scripts: vec![ticks2(vec![(vec![1], vec![]), (vec![1], vec![9]), (vec![1, 2], vec![9])])],
+            },
+        ),
+        (
+            SIG_SC_CHAIN_FIRST_N,
+            "chain_first_n(n) stops pulling after n items; a lazily evaluated operator with cross-tick state upstream in the same pull chain (here unique::<'static>()) never sees the remaining items of the tick, so later outputs depend on whether a handoff separates the two (ticks [1,2], [2] with n = 1: with handoff() tick 1 emits nothing, without it emits 2)",
+            Case22 {
+                programs: vec![
+                    two_src(vec![], Op::ChainFirstN { n: 1 }, false),
+                    two_src(vec![], Op::ChainFirstN { n: 1 }, true),
+                ],
+                descs: hdesc,
+                scripts: vec![ticks2(vec![(vec![1, 2], vec![]), (vec![2], vec![])])],
+            },
+        ),
         (
             SIG_RNR_PUSH,
             "reduce_no_replay gives different per-tick outputs as a pull operator and as a push operator (after tee()): in a tick > 0 in which exactly one item initialises the accumulator the push code path emits nothing (its was_updated flag is set inside the reduce closure, which is not called for the first item)",
